@@ -383,6 +383,7 @@ theorem rawEntryOn_total (c32 : Bool) (e : Enc) (sec : SecBuf) (hb : BufOk sec) 
   have hq2 : sec.size.toNat / sec.entSize.toNat ≤ sec.size.toNat := Nat.div_le_self _ _
   have one : BitVec.signExtend 64 1#32 = 1#64 := by decide
   unfold DynAcc.rawEntryOn
+  dyn_tie
   cases c32
   · -- ELF64
     simp only [Bool.false_eq_true, if_false]
@@ -472,6 +473,7 @@ theorem getEntryCore_total (a : DynAcc) (h : DynReady a) (count idx : BitVec 64)
     (hc : count.toNat ≤ a.sec.size.toNat / a.sec.entSize.toNat) :
     ∃ r, a.getEntryCore count idx = .ok (a, r) := by
   unfold DynAcc.getEntryCore
+  dyn_tie
   by_cases g0 : dyn_get_index_invalid idx count = true
   · rw [if_pos g0]; exact ⟨_, rfl⟩
   · rw [if_neg g0]
@@ -499,6 +501,7 @@ theorem numLoop_total (a : DynAcc) (h : DynReady a) :
   | succ f ih =>
     intro i prev
     unfold DynAcc.numLoop
+    dyn_tie
     split
     · obtain ⟨r, hr⟩ := getEntryCore_total a h a.cache i h.cache
       simp only [hr, bind, Except.bind]
@@ -523,6 +526,7 @@ theorem dyn_entriesNum_total (a : DynAcc) (h : DynReady a) :
     ∃ n, a.entriesNum = .ok ({ a with cache := n }, n) ∧
       n.toNat ≤ a.sec.size.toNat / a.sec.entSize.toNat := by
   unfold DynAcc.entriesNum
+  dyn_tie
   by_cases hr : dyn_num_recompute a.cache a.sec.entSize a.needed = true
   · rw [if_pos hr]
     have hne : ¬ (a.sec.entSize = 0) := by
